@@ -864,8 +864,10 @@ class DeepDiff(ResultDict, SerializationMixin, DistanceMixin, DeepDiffProtocol, 
                 child_relationship_class=child_relationship_class,
                 local_tree=local_tree_pass,
             )
-            # Sometimes DeepDiff's old iterable diff does a better job than DeepDiff
-            if len(local_tree_pass) > 1:
+            # Sometimes DeepDiff's old iterable diff does a better job than DeepDiff.
+            # A single reported entry can still hide a misalignment when the other entries were excluded
+            # from the report (exclude_types, exclude_paths, ...): then the pairwise pass may report nothing.
+            if len(local_tree_pass) >= 1:
                 local_tree_pass2 = TreeResult()
                 self._diff_by_forming_pairs_and_comparing_one_by_one(
                     level,
@@ -874,7 +876,10 @@ class DeepDiff(ResultDict, SerializationMixin, DistanceMixin, DeepDiffProtocol, 
                     child_relationship_class=child_relationship_class,
                     local_tree=local_tree_pass2,
                 )
-                if len(local_tree_pass) >= len(local_tree_pass2):
+                if len(local_tree_pass) == 1:
+                    if len(local_tree_pass2) == 0:
+                        local_tree_pass = local_tree_pass2
+                elif len(local_tree_pass) >= len(local_tree_pass2):
                     local_tree_pass = local_tree_pass2
                 else:
                     self._iterable_opcodes[level.path(force=FORCE_DEFAULT)] = opcodes_with_values
